@@ -68,6 +68,8 @@ let parse_op (s : string) : op =
   | [ "w32"; a; v ] -> OWr (z_of_int 4, zx a, zx v)
   | [ "r16"; a ] -> ORd (z_of_int 2, zx a)
   | [ "r32"; a ] -> ORd (z_of_int 4, zx a)
+  | [ "wa"; mode; sz; a; v ] -> OWrA (zx mode, zx sz, zx a, zx v)
+  | [ "ra"; mode; sz; a ] -> ORdA (zx mode, zx sz, zx a)
   | _ -> failwith ("unknown op [" ^ s ^ "]")
 
 type case = {
@@ -190,6 +192,17 @@ let ref_bus (c : case) : string * bool =
             m := m'; written := bytes_of n ai @ !written;
             if ok then "ok" else begin ign := bytes_of n ai @ !ign; "err" end
           | ORd (sz, a) ->
+            (match aread !m sz a with Some v -> fmt_res (ROkV v) | None -> "err")
+          | OWrA (mode, sz, a0, v) ->
+            (* the reference forms the address as the manual defines @aa:8 / @aa:16 (ISA.abs8 / ISA.abs16) *)
+            let a = (match int_of_z mode with 8 -> abs8 a0 | 16 -> abs16 a0 | _ -> a0) in
+            let n = int_of_z sz and ai = int_of_z a in
+            List.iter (fun x -> if accessible (z_of_int x) && not (plain (z_of_int x)) then dom := false) (bytes_of n ai);
+            let (m', ok) = awrite !m sz a v in
+            m := m'; written := bytes_of n ai @ !written;
+            if ok then "ok" else begin ign := bytes_of n ai @ !ign; "err" end
+          | ORdA (mode, sz, a0) ->
+            let a = (match int_of_z mode with 8 -> abs8 a0 | 16 -> abs16 a0 | _ -> a0) in
             (match aread !m sz a with Some v -> fmt_res (ROkV v) | None -> "err")
           | _ -> dom := false; "na" in
         if r = "err" then stop := true;
